@@ -20,9 +20,9 @@ Outside the model (inputs): token cryptography (the OIDC verifier's verdict and 
 releases; the TokenReview answer of the API server), the third-party XFCC header grammar
 (`xfccparser.ParseXFCCHeader`: its parse result is an input), TLS chain verification.
 
-`fixed` selects the code before (`false`) / after (`true`) the two `fix:` commits on the OIDC `sub`
-claim: the bounds check on its fields (90fe2f5) and the rejection of an empty namespace / service
-account field (8474d0e).
+`fixed` selects the code before (`false`) / after (`true`) the `fix:` commits on the OIDC authenticator:
+the bounds check on the fields of `sub` (90fe2f5), the rejection of an empty namespace / service
+account field (8474d0e), and the nil mesh holder (cb98066, `oidcEntryH`).
 -/
 namespace IstioModel.C09
 
@@ -106,6 +106,21 @@ def oidcEntry (fixed : Bool) (td : String) (expected : List String) (t : Transpo
   match extractToken t authVals with
   | none => .err
   | some tok => oidcAuthenticate fixed td expected (verify tok)
+
+/-- `Authenticate` of an authenticator as CONSTRUCTED: `holder` is the mesh holder handed to
+    `NewJwtAuthenticator` - `some td`: a mesh config whose trust domain is `td` at the time of the request;
+    `none`: a nil `mesh.Holder`, which is what `pilot/pkg/bootstrap` `RunCA` passed for the out-of-cluster
+    authenticator (TOKEN_ISSUER set, no KUBERNETES_SERVICE_HOST) until fix cb98066.  Every check precedes
+    the one use of the holder (`j.meshHolder.Mesh()` when the identity is built): with a nil holder a token
+    that passes all checks made the code dereference nil (`fixed = false`), and is an error since. -/
+def oidcEntryH (fixed : Bool) (holder : Option String) (expected : List String) (t : Transport) (authVals : List String)
+    (verify : String → OidcTok) : AuthRes :=
+  match holder with
+  | some td => oidcEntry fixed td expected t authVals verify
+  | none =>
+    match oidcEntry fixed "" expected t authVals verify with
+    | .ok _ => if fixed then .err else .crash
+    | r => r
 
 /-- The code as it is in /repo now. -/
 def repoOidcFixed : Bool := true
@@ -425,7 +440,14 @@ def generalPool (pools : List (String × List String)) : List String := pools.fl
 
 A bundle document is a JWK set.  Only entries with `use = "x509-svid"` are X.509 trust roots, and each must
 carry exactly one certificate (`x5c`); `jwt-svid` entries (keys for validating JWT-SVIDs) and entries
-without a use are skipped whatever they carry.  HTTP / TLS / JSON decoding are outside the model. -/
+without a use are skipped whatever they carry.  HTTP / TLS / JSON decoding are outside the model.
+
+Scope (review round 5, M2): in /repo the ONLY non-test caller of `RetrieveSpiffeBundleRootCerts` is
+pilot/pkg/trustbundle (the fetched anchors go into the trust bundle distributed to proxies); istiod's own
+verifier (`createPeerCertVerifier`) is filled by `AddMappingFromPEM` alone, and `PeerCertVerifier.AddMappings`
+has no caller.  `bundleRoots` models the function itself; `resolvePools` - handing its result to the
+verifier - is a composition the HARNESS makes (tlscert.go), not one istiod makes today.  The theorems about
+`resolvePools` therefore say what would hold IF a caller registered the retrieved roots, nothing about istiod. -/
 
 /-- one JWK entry of a bundle document: its `use` and the certificates (by name) of its `x5c` -/
 structure BundleKey where
@@ -455,10 +477,12 @@ def bundleRoots (keys : List BundleKey) : Option (List String) :=
 inductive PoolSrc
   | roots (l : List String)
   | bundle (keys : List BundleKey)
+  | unreachable     -- the endpoint is no URL, or does not answer 200 within the retries
   deriving DecidableEq, Repr
 
-/-- `RetrieveSpiffeBundleRootCerts` over every endpoint, then `AddMappings`; `none`: a bundle was
-    refused (istiod's `createPeerCertVerifier` fails, the server does not come up) -/
+/-- `RetrieveSpiffeBundleRootCerts` over every endpoint (one failing endpoint fails the call), its result
+    registered by `AddMappings` next to the listed pools - the harness' composition, see the scope note
+    above; `none`: the retrieval returned an error -/
 def resolvePools : List (String × PoolSrc) → Option (List (String × List String))
   | [] => some []
   | (td, .roots l) :: rest => (resolvePools rest).map ((td, l) :: ·)
@@ -466,6 +490,7 @@ def resolvePools : List (String × PoolSrc) → Option (List (String × List Str
     match bundleRoots keys with
     | none => none
     | some l => (resolvePools rest).map ((td, l) :: ·)
+  | (_, .unreachable) :: _ => none
 
 /-- `url.URL.String()` of a parsed URI SAN as far as it matters here: the scheme (up to the first
     ':') comes back in lower case; nothing else of the URIs the harness generates changes. -/
